@@ -1,14 +1,21 @@
 /-
-Props/C16.lean — TriangularMesh status checks (combinatorial part).
-Proved: an edge is reported open exactly when it does not occur in exactly two faces; the report
-is invariant under any reordering of the faces and under rotating or flipping the winding of
-any face (so `check_open` cannot depend on face order or winding).
-/- FULL: also check_disconnected (modelled in Model/Mesh.lean and compared exactly with the real
-   function by the `mesh` correspondence, partition theorem not proved), check_selfintersecting and
-   the outward re-orientation (float geometry with absolute tolerances: ray test, inside test):
-   permutation / flip / derived-mesh oracle on the real class. -/
+Props/C16.lean — TriangularMesh status checks and re-orientation (combinatorial part).
+Proved:
+* `check_open`: an edge is reported open exactly when it does not occur in exactly two faces; the report is invariant
+  under any reordering of the faces and under rotating or flipping the winding of any face.
+* `check_disconnected`: `get_disconnected_faces_subsets` (the nested while/for merge as written, with the fuel the
+  driver uses shown sufficient) returns exactly the vertex-connected components: cover, pairwise disjoint, each subset
+  connected and maximal; one subset iff the mesh is vertex-connected; verdict invariant under permuting faces,
+  rewinding faces, renumbering vertices.
+* `fix_trimesh_orientation`: the edge-propagation sweep of `get_inwards_mask` (seed test as a parameter) makes every
+  orientable mesh consistently oriented, for every face order, every set of initially flipped faces and every answer
+  of the seed tests; the orientability hypothesis is shown necessary.
+/- FULL: also check_selfintersecting and "consistent => all faces outwards" (the seed's ray test and the inside test
+   are float geometry with absolute tolerances): permutation / flip / derived-mesh oracle on the real class. -/
 -/
 import MagpyVerif.Model.Mesh
+import MagpyVerif.Lemmas.MeshConn
+import MagpyVerif.Lemmas.MeshOrient
 namespace MagpyVerif.C16
 open MagpyVerif.Mesh
 
@@ -62,5 +69,256 @@ theorem face_edges_flip_rotate (a b c : Nat) :
 example : openEdges [(0, 1, 2), (0, 1, 3), (0, 2, 3), (1, 2, 3)] = [] := by decide
 example : openEdges [(0, 1, 2), (0, 1, 3), (0, 2, 3)] = [(1, 2), (1, 3), (2, 3)] := by decide
 example : subsets 10 [(0, 1, 2), (3, 4, 5), (2, 6, 7), (5, 8, 9)] = [[0, 1, 2, 6, 7], [3, 4, 5, 8, 9]] := by decide
+
+/-! ## `get_disconnected_faces_subsets` computes the vertex-connected components
+
+`subsets (faces.length + 1) faces` is what the driver runs (and what the `mesh` stream compares with the real
+function); the inner loop gets `3 * (rest.length + 1) + 1` fuel. `VConn faces u v` : `u` and `v` are linked by a
+chain of faces of the input in which consecutive faces share a vertex (`Relation.ReflTransGen` of "lie on a
+common face"); `FaceConn` is the same chain written on the faces. -/
+
+/-- the fuel of the inner `while len(first) > lf` loop is sufficient: with any fuel above `rest.length`
+(the driver's `3 * (rest.length + 1) + 1` is) the loop has reached the pass that does not enlarge `first`, so the
+result does not depend on the fuel — the model returns what the unbounded Python loop returns. -/
+theorem absorb_fuel_sufficient (first : List Nat) (rest : List Face) (n : Nat) (h : rest.length < n) :
+    absorb n first rest = absorb (3 * (rest.length + 1) + 1) first rest :=
+  absorb_fuel_irrelevant n _ first rest h (by omega)
+
+/-- the fuel of the outer `while len(tria_temp) > 0` loop is sufficient: any fuel ≥ the number of faces gives the
+same list of subsets as the driver's `faces.length + 1` (every outer pass removes at least the first face). -/
+theorem subsets_fuel_sufficient (faces : List Face) (n : Nat) (h : faces.length ≤ n) :
+    subsets n faces = subsets (faces.length + 1) faces :=
+  subsets_fuel_irrelevant n _ faces h (by omega)
+
+/-- when the inner loop ends, no face that is left over touches the collected vertex set, every face of `rest` was
+either absorbed (all its vertices collected) or left over, and nothing was collected that is not linked to `first` -/
+theorem absorb_reaches_fixpoint (first : List Nat) (rest : List Face) :
+    AbsorbSpec first rest (absorb (3 * (rest.length + 1) + 1) first rest).1 (absorb (3 * (rest.length + 1) + 1) first rest).2 :=
+  absorb_spec _ first rest (by omega)
+
+/-- Main theorem for `check_disconnected`: the subsets returned by `get_disconnected_faces_subsets` are exactly the
+vertex-connected components of the mesh: each subset is the full connectivity class of each of its members
+(`cls`: connected, and closed under sharing a face), they cover all vertices of all faces, contain nothing
+else, are non-empty and pairwise disjoint. -/
+theorem subsets_are_vertex_connected_components (faces : List Face) :
+    IsComponents faces (subsets (faces.length + 1) faces) :=
+  subsets_isComponents _ faces (by omega)
+
+/-- (1a) every vertex of every face lies in a returned subset -/
+theorem subsets_cover (faces : List Face) : ∀ f ∈ faces, ∀ v ∈ verts f, ∃ s ∈ subsets (faces.length + 1) faces, v ∈ s :=
+  (subsets_are_vertex_connected_components faces).cover
+
+/-- (1b) the returned subsets are pairwise disjoint -/
+theorem subsets_pairwise_disjoint (faces : List Face) :
+    (subsets (faces.length + 1) faces).Pairwise (fun s t => ∀ v ∈ s, v ∉ t) :=
+  (subsets_are_vertex_connected_components faces).disjoint
+
+/-- (1) every vertex of every face lies in exactly one returned subset (one position of the returned list) -/
+theorem vertex_in_exactly_one_subset (faces : List Face) (f : Face) (hf : f ∈ faces) (v : Nat) (hv : v ∈ verts f) :
+    ∃! i : Fin (subsets (faces.length + 1) faces).length, v ∈ (subsets (faces.length + 1) faces)[i] := by
+  obtain ⟨s, hs, hvs⟩ := subsets_cover faces f hf v hv
+  obtain ⟨i, hi, rfl⟩ := List.getElem_of_mem hs
+  refine ⟨⟨i, hi⟩, hvs, ?_⟩
+  rintro ⟨j, hj⟩ hvj
+  have hd := List.pairwise_iff_getElem.mp (subsets_pairwise_disjoint faces)
+  apply Fin.ext
+  show j = i
+  rcases Nat.lt_trichotomy j i with h | h | h
+  · exact absurd hvs (hd j i hj hi h v hvj)
+  · exact h
+  · exact absurd hvj (hd i j hi hj h v hvs)
+
+/-- (2) two faces sharing a vertex have all their vertices in one and the same subset -/
+theorem faces_sharing_vertex_same_subset (faces : List Face) (f g : Face) (hf : f ∈ faces) (hg : g ∈ faces)
+    (w : Nat) (hwf : w ∈ verts f) (hwg : w ∈ verts g) :
+    ∃ s ∈ subsets (faces.length + 1) faces, (∀ v ∈ verts f, v ∈ s) ∧ (∀ v ∈ verts g, v ∈ s) := by
+  have c := subsets_are_vertex_connected_components faces
+  obtain ⟨s, hs, hws⟩ := c.cover f hf w hwf
+  exact ⟨s, hs, fun v hv => (c.cls s hs w hws v).mpr (vconn_of_face hf hwf hv),
+    fun v hv => (c.cls s hs w hws v).mpr (vconn_of_face hg hwg hv)⟩
+
+/-- (3) each subset is connected: any two of its vertices lie on faces `f`, `g` of the input that are linked by a
+chain of faces of the input in which consecutive faces share a vertex -/
+theorem subset_connected (faces : List Face) (s : List Nat) (hs : s ∈ subsets (faces.length + 1) faces)
+    (u v : Nat) (hu : u ∈ s) (hv : v ∈ s) :
+    VConn faces u v ∧ ∃ f ∈ faces, ∃ g ∈ faces, u ∈ verts f ∧ v ∈ verts g ∧ FaceConn faces f g := by
+  have c := subsets_are_vertex_connected_components faces
+  have huv := (c.cls s hs u hu v).mp hv
+  obtain ⟨f, hf, huf⟩ := c.vertsOnly s hs u hu
+  obtain ⟨g, hg, hvg, hfg⟩ := faceConn_of_vconn huv f hf huf
+  exact ⟨huv, f, hf, g, hg, huf, hvg, hfg⟩
+
+/-- (3') each subset is a whole component: a vertex linked to a member of the subset is a member -/
+theorem subset_maximal (faces : List Face) (s : List Nat) (hs : s ∈ subsets (faces.length + 1) faces)
+    (u v : Nat) (hu : u ∈ s) (huv : VConn faces u v) : v ∈ s :=
+  ((subsets_are_vertex_connected_components faces).cls s hs u hu v).mpr huv
+
+/-- (4) what `check_disconnected` reports: exactly one subset is returned iff the mesh is non-empty and
+vertex-connected; so "disconnected" (`len(subsets) > 1`) is reported exactly for meshes with two vertices of
+faces that are not linked -/
+theorem one_subset_iff_connected (faces : List Face) :
+    (subsets (faces.length + 1) faces).length = 1 ↔ faces ≠ [] ∧ VertexConnected faces :=
+  (subsets_are_vertex_connected_components faces).length_eq_one_iff
+
+theorem more_than_one_subset_iff_disconnected (faces : List Face) :
+    1 < (subsets (faces.length + 1) faces).length ↔ faces ≠ [] ∧ ¬ VertexConnected faces := by
+  have c := subsets_are_vertex_connected_components faces
+  have h1 := c.length_eq_one_iff
+  have h0 := c.eq_nil_iff
+  rw [← List.length_eq_zero_iff] at h0
+  constructor
+  · intro h
+    refine ⟨fun hn => ?_, fun hc => ?_⟩
+    · have := h0.mpr hn; omega
+    · have hne : faces ≠ [] := fun hn => by have := h0.mpr hn; omega
+      have := h1.mpr ⟨hne, hc⟩; omega
+  · rintro ⟨hne, hnc⟩
+    have h0' : (subsets (faces.length + 1) faces).length ≠ 0 := fun h => hne (h0.mp h)
+    have h1' : (subsets (faces.length + 1) faces).length ≠ 1 := fun h => hnc (h1.mp h).2
+    omega
+
+/-- (4) the verdict does not depend on the order of the faces, on repeated faces or on the winding of the
+faces: two face lists whose faces have the same vertex sets get the same verdict -/
+theorem connected_verdict_invariant {f1 f2 : List Face} (h : SameFaceSets f1 f2) :
+    (subsets (f1.length + 1) f1).length = 1 ↔ (subsets (f2.length + 1) f2).length = 1 := by
+  rw [one_subset_iff_connected, one_subset_iff_connected]
+  exact ⟨fun ⟨a, b⟩ => ⟨h.ne_nil a, h.vertexConnected b⟩, fun ⟨a, b⟩ => ⟨h.symm.ne_nil a, h.symm.vertexConnected b⟩⟩
+
+/-- … in particular under any permutation of the faces -/
+theorem connected_verdict_invariant_under_face_permutation {f1 f2 : List Face} (h : f1.Perm f2) :
+    (subsets (f1.length + 1) f1).length = 1 ↔ (subsets (f2.length + 1) f2).length = 1 :=
+  connected_verdict_invariant (sameFaceSets_of_perm h)
+
+/-- … and under rotating and/or flipping the winding of any of the faces (`windings f` are the six orders of the
+three indices of `f`), also combined with a permutation of the faces -/
+theorem connected_verdict_invariant_under_rewinding {f1 f2 f3 : List Face} (hp : f1.Perm f2)
+    (hw : List.Forall₂ (fun f g => g ∈ windings f) f2 f3) :
+    (subsets (f1.length + 1) f1).length = 1 ↔ (subsets (f3.length + 1) f3).length = 1 :=
+  connected_verdict_invariant ((sameFaceSets_of_perm hp).trans (sameFaceSets_of_rewind hw))
+
+/-- … and under renumbering the vertices by any injective map -/
+theorem connected_verdict_invariant_under_renumbering {σ : Nat → Nat} (hσ : Function.Injective σ) (faces : List Face) :
+    (subsets ((faces.map (mapFace σ)).length + 1) (faces.map (mapFace σ))).length = 1 ↔
+      (subsets (faces.length + 1) faces).length = 1 := by
+  rw [one_subset_iff_connected, one_subset_iff_connected, vertexConnected_map_iff hσ]
+  simp
+
+/-- more than the verdict: under those changes the returned subsets are the same sets of vertices -/
+theorem subsets_invariant {f1 f2 : List Face} (h : SameFaceSets f1 f2) :
+    ∀ s ∈ subsets (f1.length + 1) f1, ∃ t ∈ subsets (f2.length + 1) f2, ∀ v, v ∈ s ↔ v ∈ t := by
+  intro s hs
+  have c1 := subsets_are_vertex_connected_components f1
+  have c2 := subsets_are_vertex_connected_components f2
+  obtain ⟨u, hu⟩ := List.exists_mem_of_ne_nil s (c1.nonempty s hs)
+  obtain ⟨g, hg, hug⟩ := c1.vertsOnly s hs u hu
+  obtain ⟨k, hk, hgk⟩ := h.1 g hg
+  obtain ⟨t, ht, hut⟩ := c2.cover k hk u ((hgk u).mp hug)
+  exact ⟨t, ht, fun v => by rw [c1.cls s hs u hu v, c2.cls t ht u hut v, h.vconn]⟩
+
+-- non-vacuity: a connected mesh, a mesh of two parts joined through one vertex, a disconnected mesh
+example : VertexConnected [(0, 1, 2), (0, 1, 3), (0, 2, 3), (1, 2, 3)] :=
+  ((one_subset_iff_connected _).mp (by decide)).2
+example : VertexConnected [(0, 1, 2), (3, 4, 5), (2, 6, 3)] :=
+  ((one_subset_iff_connected _).mp (by decide)).2
+example : ¬ VertexConnected [(0, 1, 2), (3, 4, 5), (2, 6, 7), (5, 8, 9)] :=
+  ((more_than_one_subset_iff_disconnected _).mp (by decide)).2
+example : subsets 5 [(0, 1, 2), (3, 4, 5), (2, 6, 7), (5, 8, 9)] = [[0, 1, 2, 6, 7], [3, 4, 5, 8, 9]] := by decide
+-- the inner loop really needs several passes (faces listed against the direction of growth): 4 passes here
+example : absorb 2 [0, 1, 2] [(6, 7, 8), (4, 5, 6), (2, 3, 4)] ≠ absorb 4 [0, 1, 2] [(6, 7, 8), (4, 5, 6), (2, 3, 4)] := by decide
+example : (absorb 4 [0, 1, 2] [(6, 7, 8), (4, 5, 6), (2, 3, 4)]).1 = [0, 1, 2, 3, 4, 5, 6, 7, 8] := by decide
+example : SameFaceSets [(0, 1, 2), (3, 4, 5)] [(5, 4, 3), (1, 2, 0)] :=
+  (sameFaceSets_of_perm (List.Perm.swap _ _ [])).trans
+    (sameFaceSets_of_rewind (.cons (by decide) (.cons (by decide) .nil)))
+
+/-! ## `get_inwards_mask` / `fix_trimesh_orientation`: the edge-propagation sweep
+
+`inwardsMask seed tris` is the model of `get_inwards_mask` on the index triples, the ray test of the seed face
+(`is_facet_inwards`) being the parameter `seed`. `Consistent tris ρ`: with the faces flagged by `ρ` flipped, no two
+distinct faces traverse an edge in the same direction — for a closed edge-manifold mesh this says that any two faces
+sharing an edge traverse it in opposite directions. The hypothesis "some consistent flagging exists" (the mesh is
+orientable) cannot be dropped: `closed_manifold_connected_but_not_orientable` below. It implies that every edge
+lies on at most two faces; closedness and connectedness are not needed. -/
+
+/-- the fuel `2 * len(triangles) + 1` of the `while indices:` loop is sufficient (on an orientable mesh): the loop
+ends with `indices` empty, and more fuel gives the same state -/
+theorem orientLoop_fuel_sufficient (seed : List Nat → Bool) (tris : List Face) (ρ : Nat → Bool) (hρ : Consistent tris ρ)
+    (m : Nat) (hm : 2 * tris.length + 1 ≤ m) :
+    (orientLoop seed tris (2 * tris.length + 1) (orientInit tris)).indices = [] ∧
+    orientLoop seed tris m (orientInit tris) = orientLoop seed tris (2 * tris.length + 1) (orientInit tris) := by
+  have h := (orientLoop_consistent hρ seed).1
+  exact ⟨h, orientLoop_fuel_irrelevant seed tris _ m _ h hm⟩
+
+/-- `propagation_consistent`: on an orientable mesh — whatever the order of the faces, whichever faces are given
+flipped, whatever the seed tests answer — flipping the faces flagged by `get_inwards_mask` leaves no two distinct
+faces that traverse an edge in the same direction; the mask has one entry per face. -/
+theorem propagation_consistent (seed : List Nat → Bool) (tris : List Face) (ρ : Nat → Bool) (hρ : Consistent tris ρ) :
+    (inwardsMask seed tris).length = tris.length ∧
+    Consistent tris (fun i => (inwardsMask seed tris).getD i false) :=
+  (orientLoop_consistent hρ seed).2
+
+/-- the same on the output of `fix_trimesh_orientation`: the returned faces are the given faces, each as it was or
+flipped `(a, b, c) → (a, c, b)`, and two returned faces that share an edge traverse it in opposite directions -/
+theorem fixOrientation_consistent (seed : List Nat → Bool) (tris : List Face) (ρ : Nat → Bool) (hρ : Consistent tris ρ) :
+    (fixOrientation seed tris).length = tris.length ∧
+    (∀ i, i < tris.length → (fixOrientation seed tris).getD i (0, 0, 0) = faceAt tris i ∨
+      (fixOrientation seed tris).getD i (0, 0, 0) = flipFace (faceAt tris i)) ∧
+    ∀ i j, i < tris.length → j < tris.length → i ≠ j → ∀ a b,
+      (a, b) ∈ dirEdges ((fixOrientation seed tris).getD i (0, 0, 0)) →
+      (a, b) ∉ dirEdges ((fixOrientation seed tris).getD j (0, 0, 0)) := by
+  obtain ⟨hlen, hc⟩ := propagation_consistent seed tris ρ hρ
+  have hget : ∀ i, i < tris.length → (fixOrientation seed tris).getD i (0, 0, 0) =
+      if (inwardsMask seed tris).getD i false then flipFace (faceAt tris i) else faceAt tris i := by
+    intro i hi
+    have hi' : i < (inwardsMask seed tris).length := by rw [hlen]; exact hi
+    simp only [fixOrientation, faceAt, List.getD_eq_getElem?_getD, List.getElem?_zipWith, List.getElem?_eq_getElem hi,
+      List.getElem?_eq_getElem hi', Option.getD_some]
+  have hdir : ∀ i, i < tris.length → ∀ e, e ∈ dirEdges ((fixOrientation seed tris).getD i (0, 0, 0)) ↔
+      e ∈ orient ((inwardsMask seed tris).getD i false) (faceAt tris i) := by
+    intro i hi e
+    rw [hget i hi]
+    cases (inwardsMask seed tris).getD i false
+    · simp [orient]
+    · simp only [if_true, orient]; exact mem_dirEdges_flipFace _ e
+  refine ⟨by simp [fixOrientation, hlen], ?_, ?_⟩
+  · intro i hi
+    rw [hget i hi]
+    cases (inwardsMask seed tris).getD i false
+    · exact Or.inl (by simp)
+    · exact Or.inr (by simp)
+  · intro i j hi hj hij a b hab h
+    exact hc i j hi hj hij (a, b) ((hdir i hi _).mp hab) ((hdir j hj _).mp h)
+
+/-- spelled out for a shared edge: if returned face `i` traverses `a → b` and a different returned face `j` contains
+the edge `{a, b}` (in either direction), then face `j` traverses it `b → a` -/
+theorem shared_edge_traversed_oppositely (seed : List Nat → Bool) (tris : List Face) (ρ : Nat → Bool) (hρ : Consistent tris ρ)
+    (i j : Nat) (hi : i < tris.length) (hj : j < tris.length) (hij : i ≠ j) (a b : Nat)
+    (hab : (a, b) ∈ dirEdges ((fixOrientation seed tris).getD i (0, 0, 0)))
+    (hshare : (a, b) ∈ dirEdges ((fixOrientation seed tris).getD j (0, 0, 0)) ∨
+      (b, a) ∈ dirEdges ((fixOrientation seed tris).getD j (0, 0, 0))) :
+    (b, a) ∈ dirEdges ((fixOrientation seed tris).getD j (0, 0, 0)) := by
+  rcases hshare with h | h
+  · exact absurd h ((fixOrientation_consistent seed tris ρ hρ).2.2 i j hi hj hij a b hab)
+  · exact h
+
+/-- the orientability hypothesis of `propagation_consistent` is necessary: a closed (every edge on exactly two faces),
+vertex-connected mesh of index triples for which no choice of flips is consistent — so for it the mask returned by
+`get_inwards_mask` cannot be consistent either. (Such a surface cannot be realised in space without
+self-intersection; `check_selfintersecting` is the guard on the real class.) -/
+theorem closed_manifold_connected_but_not_orientable :
+    openEdges rp2 = [] ∧ (subsets (rp2.length + 1) rp2).length = 1 ∧ ¬ ∃ ρ, Consistent rp2 ρ :=
+  ⟨by decide, by decide, not_orientable_of_all_conflict rp2 (by decide +kernel)⟩
+
+-- non-vacuity: a tetrahedron given with two faces wound the wrong way is orientable …
+example : Consistent [(0, 1, 2), (0, 1, 3), (0, 2, 3), (1, 2, 3)] (fun i => [false, true, false, true].getD i false) :=
+  (conflict_iff _ _).mp (by decide)
+-- … the sweep (seed verdict "outwards", resp. "inwards") returns these flips, resp. the complementary ones
+example : inwardsMask (fun _ => false) [(0, 1, 2), (0, 1, 3), (0, 2, 3), (1, 2, 3)] = [false, true, false, true] := by decide
+example : inwardsMask (fun _ => true) [(0, 1, 2), (0, 1, 3), (0, 2, 3), (1, 2, 3)] = [true, false, true, false] := by decide
+example : fixOrientation (fun _ => false) [(0, 1, 2), (0, 1, 3), (0, 2, 3), (1, 2, 3)] = [(0, 1, 2), (0, 3, 1), (0, 2, 3), (1, 3, 2)] := by decide
+-- two tetrahedra touching in vertex 0: a second seed is needed
+example : inwardsMask (fun idx => idx.length == 4) [(0, 1, 2), (0, 1, 3), (0, 2, 3), (1, 2, 3), (0, 4, 5), (0, 4, 6), (0, 5, 6), (4, 5, 6)]
+    = [false, true, false, true, true, false, true, false] := by decide
+-- on the projective plane the returned flips are not consistent
+example : conflict rp2 (inwardsMask (fun _ => false) rp2) = true := by decide
 
 end MagpyVerif.C16
